@@ -141,6 +141,14 @@ func solveOne(o *Obligation, scratch string, timeoutS int, cross bool) {
 		if o.Sweep && t > 4 {
 			t = 4
 		}
+		if o.Quick {
+			if si > 0 {
+				break
+			}
+			if t > 3 {
+				t = 3
+			}
+		}
 		if o.Expect == "canary" {
 			// a canary only has to fail: one solver, short timeout
 			if si > 0 {
